@@ -162,7 +162,7 @@ def rf31b(run):
             return any(c.replace(' ', '').strip('()').endswith('->machine_code!=0') and t or c.replace(' ', '').strip('()').endswith('->machine_code==0') and not t
                        for c, t in conds)
         miss = [b for b, extra in _exits_missing(cfg, tg, assume)
-                if not allow(dominating_conditions(cfg, b) + extra) and not generated(dominating_conditions(cfg, b) + extra)]
+                if not allow(dominating_conditions(cfg, b) + extra)]
         ok = bool(tg) and not miss
         run.ob(rule, ('always', fname), ok, {'function': fname, 'redirecting blocks': len(tg), 'unredirected exits': len(miss), 'clause': what})
         if not ok:
